@@ -505,14 +505,21 @@ impl RWorld {
                         Some(k) => k,
                     };
                     let node = &self.nodes[i];
+                    // The statement fixes where gradients MUST appear (the array the pass is started on,
+                    // leaves and results that were tracked when used) and where they MUST NOT (untracked
+                    // operands, anything below an untracked intermediate). For a result whose handle was
+                    // stripped of its "keep" flag (`.untracked()` then `start_tracking()`), or a root of
+                    // that kind, it leaves the choice open: accept either.
                     let stores: Option<bool> = if i == root {
-                        Some(!node.has_graph || h.keep)
+                        if !node.has_graph || h.keep {
+                            Some(true)
+                        } else {
+                            None
+                        }
                     } else if !node.has_graph {
                         Some(true)
                     } else if keeps.iter().all(|k| *k) {
                         Some(true)
-                    } else if keeps.iter().all(|k| !*k) {
-                        Some(false)
                     } else {
                         None
                     };
